@@ -1,4 +1,5 @@
 import PyRt.Basic
+import PyRt.Int
 /-!
 # Spec.Wsgi — model of `online_check/stdnum.wsgi` (property C18)
 
@@ -6,8 +7,11 @@ Hand-written model of the bundled WSGI application.  Everything the script does 
 untrusted text is modelled literally:
 
 * `escape`        — `html.escape(s, quote)`: the chain of `str.replace` calls, `&` first;
-* `escapeConv`    — `html.escape(x)` applied to whatever a `to_*`/`get_*` function returned
-                    (raises `AttributeError` on non-strings exactly like `x.replace` does);
+* `convStr`       — `str(conversion)`: since upstream commit 6b1a6e2 `format()` shows conversions as
+                    `html.escape(str(conversion))`, so `int`, `None`, `dict` … no longer fail;
+* `escapeConv`    — `html.escape(data['number'])`, still applied without `str()` to what
+                    `format(number)` returned (raises `AttributeError` on non-strings exactly like
+                    `x.replace` does);
 * `conversions`   — `dict(get_conversions(module, number))` (catch-all `try`, dates turned into
                     text, `conversion != number` filter, dict insertion semantics);
 * `info`          — `info(module, number)`;
@@ -86,16 +90,19 @@ def unescape : Str → Str
 /-! ## values returned by conversion functions -/
 
 /-- What a `to_*`/`get_*` function (or `format`/`compact`) may hand to the page, after dates
-have been turned into text.
-`other` = any JSON-serialisable non-string (dict with string keys, list, tuple, bool, float);
-`nojson` = anything `json.dumps` rejects (Decimal, bytes, set, …).  On the current tree the
-getters return `str`, `int`, `None`, `dict` and `date`. -/
+have been turned into text.  Every constructor determines `str(value)`:
+`other text` = any other JSON-serialisable object (dict with string keys, list, tuple, float) with its
+`str()` text; `nojson text` = anything `json.dumps` rejects (Decimal, bytes, set, …) with its
+`str()` text.  `int n` stands for an `int` within `sys.get_int_max_str_digits()` (4300 digits; beyond
+it `str()` and `json.dumps` both raise `ValueError` — outside the model, no function of the library
+returns such a value).  On the current tree the getters return `str`, `int`, `None`, `dict`, `date`. -/
 inductive Conv where
   | str (s : Str)
   | int (n : Int)
   | none
-  | other
-  | nojson
+  | bool (b : Bool)
+  | other (text : Str)
+  | nojson (text : Str)
 deriving DecidableEq, Repr, Inhabited
 
 /-- raw return value of a getter: `isinstance(conversion, datetime.date)` is tested first;
@@ -105,17 +112,30 @@ inductive GetVal where
   | date (iso : Str)
 deriving DecidableEq, Repr, Inhabited
 
-/-- `html.escape(conversion)`: `conversion.replace(...)` exists only on `str`;
-`int`, `None`, `dict`, `tuple`, `Decimal` … raise `AttributeError`
-(`'int' object has no attribute 'replace'`); `bytes` would raise `TypeError` — one class
-in the model. -/
+def sNone  : Str := [78, 111, 110, 101]        -- "None"
+def sTrue  : Str := [84, 114, 117, 101]        -- "True"
+def sFalse : Str := [70, 97, 108, 115, 101]    -- "False"
+
+/-- `str(conversion)` -/
+def convStr : Conv → Str
+  | .str s => s
+  | .int n => Py.strOfInt n
+  | .none => sNone
+  | .bool b => if b then sTrue else sFalse
+  | .other t => t
+  | .nojson t => t
+
+/-- `html.escape(x)` on a value that is not passed through `str()` first (`data['number']`):
+`x.replace(...)` exists only on `str`; `int`, `None`, `dict`, `tuple`, `Decimal` … raise
+`AttributeError` (`'int' object has no attribute 'replace'`); `bytes` would raise `TypeError` — one
+class in the model. -/
 def escapeConv : Conv → R Str
   | .str s => pure (escape true s)
   | _ => raise .attributeError
 
 /-- `json.dumps` accepts the value -/
 def Conv.jsonable : Conv → Bool
-  | .nojson => false
+  | .nojson _ => false
   | _ => true
 
 /-! ## modules, `get_conversions`, `info` -/
@@ -193,19 +213,33 @@ def sNameOpen  : Str := [58, 32, 60, 98, 62]                                -- "
 def sNameClose : Str := [60, 47, 98, 62, 60, 112, 62]                       -- "</b><p>"
 def sLiClose   : Str := [60, 47, 112, 62, 60, 47, 108, 105, 62]             -- "</p></li>"
 
-/-- the loop `for name, conversion in data['conversions'].items(): description += …` -/
-def appendConvs (description : Str) : List (Str × Conv) → R Str
-  | [] => pure description
-  | (k, v) :: r => do
-    let e ← escapeConv v
-    appendConvs (description ++ sConvOpen ++ escape true k ++ sConvMid ++ e) r
+/-- one line of the loop
+`description += '\n<br/><b><i>%s</i></b>: %s' % (html.escape(name), html.escape(str(conversion)))` -/
+def convLine (k : Str) (v : Conv) : Str :=
+  sConvOpen ++ escape true k ++ sConvMid ++ escape true (convStr v)
+
+/-- the loop over `data['conversions'].items()` -/
+def appendConvs (description : Str) (cs : List (Str × Conv)) : Str :=
+  cs.foldl (fun d p => d ++ convLine p.1 p.2) description
 
 /-- `format(data)`.  `descr` stands for the processing of the (trusted) module description:
-`html.escape`, `.replace('\n\n', '<br/>\n')` and the two `re.sub` calls. -/
+`html.escape`, `.replace('\n\n', '<br/>\n')` and the two `re.sub` calls.  The only step that can
+raise is `html.escape(data['number'])`. -/
 def formatEntry (descr : Str → Str) (d : Info) : R Str := do
-  let description ← appendConvs (descr d.description) d.conversions
+  let description := appendConvs (descr d.description) d.conversions
   let n ← escapeConv d.number
   pure (sLiOpen ++ n ++ sNameOpen ++ escape true d.name ++ sNameClose ++ description ++ sLiClose)
+
+/-- HISTORICAL: `format(data)` before upstream commit 6b1a6e2 (`html.escape(conversion)` without
+`str()`): any non-string conversion raised `AttributeError`.  Kept only for the labelled witness
+`Props.C18.formatEntry_fix_witness`; nothing else uses it. -/
+def formatEntryOld (descr : Str → Str) (d : Info) : R Str := do
+  let lines ← d.conversions.mapM (fun p => do
+    let e ← escapeConv p.2
+    pure (sConvOpen ++ escape true p.1 ++ sConvMid ++ e))
+  let n ← escapeConv d.number
+  pure (sLiOpen ++ n ++ sNameOpen ++ escape true d.name ++ sNameClose ++
+        (descr d.description ++ lines.flatten) ++ sLiClose)
 
 /-! ## `template % mapping` -/
 
